@@ -179,6 +179,23 @@ def path_indices(path):
     return out
 
 
+def path_valid(path):
+    """BIP32 notation and at most 255 levels (the depth field of the serialisation is one byte)"""
+    idx = path_indices(path)
+    return idx is not None and len(idx) <= MAX_DEPTH
+
+
+def path_is_public(path):
+    """a valid path without hardened components (derivable from an extended public key)"""
+    idx = path_indices(path)
+    if idx is None:
+        return False
+    for i in idx:
+        if i >= HARDENED:
+            return False
+    return True
+
+
 def path_string(indices, marker="'"):
     """canonical text of a list of indices"""
     s = "m"
